@@ -578,6 +578,7 @@ class Group(System):
         self._subsystems_allprocs = self._static_subsystems_allprocs.copy()
         self._manual_connections = self._static_manual_connections.copy()
         self._group_inputs = self._static_group_inputs.copy()
+        self._sys_graph_cache = None
 
         if self.pathname == '':
             self._conn_graph = AllConnGraph()
